@@ -13,40 +13,7 @@ verus! {
 
 //@ include _frame_common.inc
 
-// ---- bytes.rs (async) ------------------------------------------------------------------------
-//@ extract wtransport-proto/src/bytes.rs >> mod r#async >> enum IoReadError
-//@ subst `enum IoReadError` => `enum BytesIoReadError`
-//@ end
-
-spec fn fin_remap(e: BytesIoReadError) -> BytesIoReadError {
-    if e is ImmediateFin { BytesIoReadError::UnexpectedFin } else { e }
-}
-
-// Assumed interface: the completed leaf futures of `BytesReaderAsync` on a healthy source
-// (discharged on the real futures by Kani, see header).
-trait AsyncReader {
-    spec fn remaining(&self) -> Seq<u8>;
-
-    fn get_varint(&mut self) -> (r: Result<VarInt, BytesIoReadError>)
-        ensures
-            match r {
-                Ok(v) => varint_complete(old(self).remaining()) && v.0 == varint_val(old(self).remaining()) && v.wf()
-                    && final(self).remaining() == old(self).remaining().skip(varint_len_from_first(old(self).remaining()[0])),
-                Err(e) => !varint_complete(old(self).remaining()) && final(self).remaining().len() == 0
-                    && e == (if old(self).remaining().len() == 0 { BytesIoReadError::ImmediateFin } else { BytesIoReadError::UnexpectedFin }),
-            };
-
-    fn get_buffer(&mut self, buffer: &mut Vec<u8>) -> (r: Result<(), BytesIoReadError>)
-        ensures
-            final(buffer)@.len() == old(buffer)@.len(),
-            match r {
-                Ok(_) => old(buffer)@.len() <= old(self).remaining().len()
-                    && final(buffer)@ == old(self).remaining().take(old(buffer)@.len() as int)
-                    && final(self).remaining() == old(self).remaining().skip(old(buffer)@.len() as int),
-                Err(e) => old(buffer)@.len() > old(self).remaining().len() && final(self).remaining().len() == 0
-                    && e == (if old(self).remaining().len() == 0 { BytesIoReadError::ImmediateFin } else { BytesIoReadError::UnexpectedFin }),
-            };
-}
+//@ include _async_common.inc
 
 // assumed std: `vec![0; n]`, `Vec::shrink_to_fit`, `Cow::Owned`
 #[verifier::external_body]
@@ -109,13 +76,13 @@ impl<'a> Frame<'a> {
 //@ subst `})?;
 //@ |
 //@ |            let kind = kind.ok_or` => `}).map_err(|e: BytesIoReadError| -> (o: IoReadError) ensures o == IoReadError::IO(e) { io_read_error_from(e) })?;
-//@ |            proof { let n1 = varint_len_from_first(s0[0]); let n2 = varint_len_from_first(s0.skip(n1)[0]); lemma_skip_skip(s0, n1, n2); lemma_skip_skip(s0, n1 + n2, payload_len as int); }
+//@ |            proof { let n1 = varint_len_from_first(s0[0]); let n2 = varint_len_from_first(s0.skip(n1)[0]); lemma_skip_skip(s0, n1, n2); lemma_skip_skip(s0, n1 + n2, varint_val(s0.skip(n1)) as int); }
 //@ |            let kind = kind.ok_or`
 //@ subst `|InvalidSessionId| IoReadError::Parse(ParseError::InvalidSessionId)` => `|_e: InvalidSessionId| -> (o: IoReadError) ensures o == IoReadError::Parse(ParseError::InvalidSessionId) { IoReadError::Parse(ParseError::InvalidSessionId) }`
 //@ subst `Self::MAX_PARSE_PAYLOAD_ALLOWED` => `4096`
-//@ subst `vec![0; payload_len]` => `vec_zeroed(payload_len)`
-//@ subst `payload.shrink_to_fit();` => `vec_shrink_to_fit(&mut payload);`
-//@ subst `Cow::Owned(payload)` => `cow_owned(payload)`
+//@ resub `vec!\[0; (\w+)\]` => `vec_zeroed(\1)`
+//@ resub `(\w+)\.shrink_to_fit\(\);` => `vec_shrink_to_fit(&mut \1);`
+//@ resub `Cow::Owned\((\w+)\)` => `cow_owned(\1)`
 //@ prologue let ghost s0 = reader.remaining();
 //@ insert_before `Ok(Self::new_webtransport(session_id))` => `proof { lemma_skip_skip(s0, varint_len_from_first(s0[0]), varint_len_from_first(s0.skip(varint_len_from_first(s0[0]))[0])); }`
 //@ ensures read_async_post(old(reader).remaining(), final(reader).remaining(), r)
